@@ -725,6 +725,7 @@ func c19IsLaws(env *core.Env, rng *core.Rng) {
 			pool = append(pool, strongRef("Patient", id, ver),
 				&dtpb.Reference{Reference: &dtpb.Reference_Uri{Uri: &dtpb.String{Value: rel}}},
 				&dtpb.Reference{Reference: &dtpb.Reference_Uri{Uri: &dtpb.String{Value: "http://h.example/fhir/" + rel}}},
+				&dtpb.Reference{Reference: &dtpb.Reference_Uri{Uri: &dtpb.String{Value: "https://other.example:8443/base/r4/" + rel}}},
 				&dtpb.Reference{Reference: &dtpb.Reference_Uri{Uri: &dtpb.String{Value: rel}}, Display: &dtpb.String{Value: "shown"}})
 		}
 	}
